@@ -208,3 +208,30 @@ Proof.
   split; [vm_compute; reflexivity|]. split; [eexists; split; vm_compute; reflexivity|].
   split; [vm_compute; reflexivity|]. eexists; split; vm_compute; reflexivity.
 Qed.
+
+(* ------------------------------------------------------------------ rejected forms on the concatenated indexer *)
+
+(* a head slice with a negative step is rejected outright, whatever the parts, bounds and tail (never answered) *)
+Lemma concat_negative_step_rejected ps dt total S a b c tail start stop stride :
+  slice_indices total a b c = Some (start, stop, stride) -> stride < 0 ->
+  c_head ps dt total S (ASlice a b c) tail = Err.
+Proof.
+  intros H Hs. cbn [c_head]. rewrite H. unfold concat_stride_rejected.
+  assert (E : (stride <? 0) = true) by lia. now rewrite E.
+Qed.
+
+(* a scalar head outside [-len, len) is rejected *)
+Lemma concat_scalar_out_of_range_rejected ps dt total S z tail : 0 <= total -> z < - total \/ total <= z ->
+  c_head ps dt total S (AInt z) tail = Err.
+Proof.
+  intros Ht H. cbn [c_head]. unfold concat_scalar_rejected, concat_norm_scalar.
+  destruct (z <? 0) eqn:E.
+  - assert (E2 : (0 <=? total + z) && (total + z <? total) = false) by lia. now rewrite E2.
+  - assert (E2 : (0 <=? z) && (z <? total) = false) by lia. now rewrite E2.
+Qed.
+
+(* F30b: c[::-1] raises although the concatenation can be reversed *)
+Lemma concat_negative_step_refuted :
+  run_concat two_parts [ASlice None None (Some (-1))] = Err
+  /\ spec_concat two_parts [] [ASlice None None (Some (-1))] <> Err.
+Proof. split; [vm_compute; reflexivity|vm_compute; discriminate]. Qed.
